@@ -19,7 +19,11 @@ COMPONENTS = {
              'gevent Pool/Event/Semaphore/Greenlet'],
     'real_in_some_runs': ['slimta.relay.pipe.PipeRelay over a fake subprocess '
                           'module (C01: 2 runs in 5, both per-recipient '
-                          'modes)'],
+                          'modes)',
+                          'slimta.relay.smtp.static.StaticSmtpRelay / '
+                          'StaticLmtpRelay with RelayPool, SmtpRelayClient, '
+                          'Client against the scripted SMTP/LMTP server (C01: '
+                          '2 runs in 7)'],
     'stub': ['SimLoop (event loop, clock)', 'SimFS (os/mkstemp/pyaio)',
              'SimRedis (redis client)', 'SimObjectStore/SimMsgQueue (aws.py '
              'method set)', 'ScriptRelay (scripted Relay subclass)'],
@@ -117,6 +121,13 @@ def generate(seed, prop, bias):
     rk = rng.choice(bias.get('relays', ['script']))
     if rk != 'script':
         scn['relay'] = rk
+        if rk in ('smtp', 'lmtp'):
+            # the scripted server recognises a message by its sender
+            for m in msgs:
+                m['sender'] = 'm%d@s.example' % m['k']
+            scn['relay_pipelining'] = rng.random() < 0.7
+            scn['relay_pool_size'] = rng.choice([None, 1, 2])
+            scn['relay_idle'] = rng.choice([None, None, 2.0])
         if rk == 'pipe1':
             # one process per message: single-recipient messages (what a
             # RecipientSplit policy in front of such a relay produces)
